@@ -8,6 +8,7 @@ import OrasModel.Driver.Cr
 import OrasModel.Driver.Pf
 import OrasModel.Driver.Tr
 import OrasModel.Driver.Rt
+import OrasModel.Driver.Pk
 open Oras.Driver
 
 structure DState where
@@ -38,6 +39,9 @@ def handle (st : DState) (line : String) : DState × String :=
       | some (m, s) => (st, s!"m={m} s={s}")
       | none => (st, "bad-op"))
   | "rt" :: rest => (match Rt.step rest with
+      | some (m, s) => (st, s!"m={m} s={s}")
+      | none => (st, "bad-op"))
+  | "pk" :: rest => (match Pk.step rest with
       | some (m, s) => (st, s!"m={m} s={s}")
       | none => (st, "bad-op"))
   | "ref" :: rest => (match R.step rest with
